@@ -71,7 +71,95 @@ pub fn spaces(tier: Tier) -> Vec<Box<dyn Space>> {
     add("L3-control-flow", control_flow(t));
     add("L4-functions", functions(t));
     add("L5-wide", wide_programs(t));
+    add("L6-deep-hosts", deep_hosts(t));
     v
+}
+
+// ---------------------------------------------------------------------------------------
+// L6 depth: a control-flow kernel means the same however deeply it sits: every kernel inside
+// d nested hosts (bare blocks, taken ifs, one-iteration loops, called functions, and a mix) for
+// every d in 0..=12 [0..=24]. The scope / environment stack is that deep while the kernel runs.
+// ---------------------------------------------------------------------------------------
+
+fn deep_hosts(thorough: bool) -> Gen<Vec<S>> {
+    let max_d: u32 = if thorough { 24 } else { 12 };
+    let kernels = kernels();
+    let mut cases: Vec<(usize, u8, u32)> = Vec::new();
+    for k in 0..kernels.len() {
+        for host in 0..5u8 {
+            for d in 0..=max_d {
+                cases.push((k, host, d));
+            }
+        }
+    }
+    Gen::of(cases).map(move |(k, host, d)| {
+        let mut body = kernels[k].clone();
+        for level in (0..d).rev() {
+            let h = if host == 4 { (level % 4) as u8 } else { host };
+            body = match h {
+                0 => vec![S::Block(body)],
+                1 => vec![S::If(E::Bool(true), body, Some(vec![shout(st("else"))]))],
+                2 => {
+                    let c = format!("h{level}");
+                    let mut b = vec![S::Set(c.clone(), bin(Op::Add, var(&c), num("1")))];
+                    b.extend(body);
+                    vec![S::Make(c.clone(), Some(num("0"))), S::Loop(bin(Op::Lt, var(&c), num("1")), b)]
+                }
+                _ => {
+                    let f = format!("hf{level}");
+                    vec![func(&f, &[], body), S::Expr(call(&f, vec![]))]
+                }
+            };
+        }
+        let mut p = vec![make("acc", st(""))];
+        p.extend(body);
+        p.push(shout(var("acc")));
+        p
+    })
+}
+
+/// small programs around loops with `next` / `comot` / `return`, shadowing and accumulation;
+/// they only use the global `acc` and their own fresh names
+fn kernels() -> Vec<Vec<S>> {
+    let add_acc = |e: E| set("acc", bin(Op::Add, var("acc"), e));
+    let counted = |c: &str, n: &str, body: Vec<S>| -> Vec<S> {
+        let mut b = vec![S::Set(c.to_string(), bin(Op::Add, var(c), num("1")))];
+        b.extend(body);
+        vec![S::Make(c.to_string(), Some(num("0"))), S::Loop(bin(Op::Lt, var(c), num(n)), b)]
+    };
+    vec![
+        // `next` skips the rest of the body, the loop goes on
+        counted("k", "4", vec![S::If(bin(Op::Eq, var("k"), num("2")), vec![S::Next], None), add_acc(var("k"))]),
+        // `comot` leaves the loop
+        counted("k", "4", vec![S::If(bin(Op::Eq, var("k"), num("3")), vec![S::Break], None), add_acc(var("k"))]),
+        // `next` in the inner loop of two
+        counted("k", "2", {
+            let mut inner = counted("j", "3", vec![S::If(bin(Op::Eq, var("j"), num("2")), vec![S::Next], None), add_acc(bin(Op::Add, var("k"), var("j")))]);
+            inner.push(add_acc(st("|")));
+            inner
+        }),
+        // `comot` in the inner loop only leaves the inner loop
+        counted("k", "3", {
+            let mut inner = counted("j", "3", vec![S::If(bin(Op::Eq, var("j"), num("2")), vec![S::Break], None), add_acc(var("j"))]);
+            inner.push(add_acc(st(";")));
+            inner
+        }),
+        // a function returning from inside a loop inside a block
+        vec![
+            func("kf", &["n"], vec![S::Block(counted("k", "5", vec![S::If(bin(Op::Gt, var("k"), var("n")), vec![S::Ret(Some(bin(Op::Mul, var("k"), num("10"))))], None)])), S::Ret(Some(num("0")))]),
+            add_acc(call("kf", vec![num("2")])),
+            add_acc(call("kf", vec![num("9")])),
+        ],
+        // shadowing in a nested block, the outer value comes back
+        vec![make("w", st("outer")), S::Block(vec![make("w", st("inner")), add_acc(var("w"))]), add_acc(var("w"))],
+        // recursion with an accumulator parameter
+        vec![
+            func("kr", &["n", "a"], vec![S::If(bin(Op::Lt, var("n"), num("1")), vec![S::Ret(Some(var("a")))], None), S::Ret(Some(call("kr", vec![bin(Op::Sub, var("n"), num("1")), bin(Op::Add, var("a"), var("n"))])))]),
+            add_acc(call("kr", vec![num("4"), num("0")])),
+        ],
+        // `next` as the last statement, `comot` under an else
+        counted("k", "3", vec![add_acc(var("k")), S::If(bin(Op::Lt, var("k"), num("2")), vec![S::Next], Some(vec![S::Break]))]),
+    ]
 }
 
 // ---------------------------------------------------------------------------------------
